@@ -238,7 +238,7 @@ def gen_history(seed: int, tier: str) -> dict:
             elif w < 0.52:
                 where = ['none']
             elif w < 0.64:
-                where = ['bad', r.choice([-1, 0, 7, 1000])]
+                where = ['bad', r.choice([-1, 0, 7, 1000, 'True', 'False', '1.0'])]
             elif w < 0.88:
                 where = ['cursor', r.randrange(64)]
             elif w < 0.94:
@@ -563,8 +563,13 @@ class World:
                 must_change = []     # overlapping windows decline instead
         elif wk == 'bad':
             v = op['where'][1]
-            where = {-1: -1, 0: k, 7: k + 7, 1000: 1000 + k}[v]
-            expect_raise = 'bad-index'
+            if v in ('True', 'False', '1.0'):
+                # a bool is not an index (though it is an int), nor is a float
+                where = {'True': True, 'False': False, '1.0': 1.0}[v]
+                expect_raise = 'not-an-index'
+            else:
+                where = {-1: -1, 0: k, 7: k + 7, 1000: 1000 + k}[v]
+                expect_raise = 'bad-index'
         elif wk == 'foreign':
             g = self.other
             try:
@@ -623,6 +628,12 @@ class World:
             # k == 0 with where=0 is "any other index": must be rejected as well
             self.vio('bad-where-accepted', {'why': expect_raise, 'where': repr(where)[:120], 'k': k}, strategy=name, where_kind=wk)
             return
+        if M.fingerprint(g.ast) == before_fp:
+            # an aim that returned without changing anything (probe; a cursor naming no candidate
+            # is documented to raise)
+            self.stats.count('probes', f'aim-returned-unchanged-program:{wk}')
+            if wk == 'cursor':
+                self.vio('cursor-aim-silently-did-nothing', {'where': repr(cursor_pos(where))[:120], 'k': k}, strategy=name, where_kind=wk)
         child = self.add_node(ni, g, f'{name}:{wk}')
         al = self.nodes[child]['al']
         changed = M.changed_old_paths(al)
@@ -1008,6 +1019,7 @@ def main(tier: str) -> int:
         'applies_by_root_kind': dict(c.get('roots', {})),
         'strategy_where_k_root_distinct': len(st.sets.get('distinct', ())),
         'undecided': dict(c.get('undecided', {})),
+        'probes': dict(c.get('probes', {})),
         'components': {
             'real': ['fpy2.strategies.*', 'fpy2.transform.* (cursor, path, utils, every aimable pass)', 'fpy2.function.Function.forward/rebase/with_edits/with_ast/with_rt'],
             'stub': ['none; the oracle is the independent alignment model in checks/c19_model.py'],
